@@ -366,6 +366,7 @@ def install(R):
         lab = NdArr.fresh("labels", (n,), "int")
         i = z3.Int(fresh_name("i"))
         E.assume(z3.ForAll([i], z3.And(lab.cell.term[i] >= 0, lab.cell.term[i] < z(k))))
+        lab.cell.dtype_name = "int32"       # scikit-learn's k-means labels are int32
         self_obj.fields["labels_"] = lab
         self_obj.fields["inertia_"] = E.real("inertia")
         it = E.int("n_iter")
@@ -485,7 +486,7 @@ def install(R):
         names = ["low", "high", "size", "dtype"]
         b = dict(zip(names, args)); b.update(kwargs)
         before = len(E.trace)
-        r = R.fns["numpy.random.randint"](E, b.get("low"), b.get("high"), b.get("size"))
+        r = R.fns["numpy.random.randint"](E, b.get("low"), b.get("high"), b.get("size"), b.get("dtype"))
         for t in E.trace[before:]:
             t["rng"] = recv.fields["$rng"]
         return r
@@ -795,6 +796,10 @@ def install(R):
         i = z3.Int(fresh_name("i"))
         E.assume(z3.ForAll([i], z3.And(arr.cell.term[i] >= z(low), arr.cell.term[i] < z(high))))
         E.trace.append(dict(op="randint", low=low, high=high, size=size, result=arr, rng="Global"))
+        if dtype is not None:
+            from .npmodel import DType
+            nm = dtype.name if isinstance(dtype, DType) else (dtype.name.split(".")[-1] if isinstance(dtype, ExternFn) else str(dtype))
+            arr.cell.dtype_name = nm
         return arr
 
     # ------------------------------------------------------------------ boolean-mask gather / scatter (ghost rank / count)
